@@ -123,13 +123,24 @@ def oracle_c07(tr, sc):
         if a.get('post') and a['niter_cb'] != a['iter']:
             V('grammar', 'hooks', f'block {a["block"]} slot {a["slot"]}: status.iter {a["iter"]} != number of pre_iteration callbacks {a["niter_cb"]}')
 
-    # 5. transfer matching: independent mailbox model replayed over the recorded sends/receives
+    # 5. transfer matching: independent mailbox model replayed over the recorded sends/receives; every forward transfer is
+    #    consumed exactly once, by the successor, on the level and in the iteration it was sent for
     mailbox = {}
+    flagged = set()
+
+    def unconsumed(key, ent):
+        if ('unc', key[2]) not in flagged:
+            flagged.add(('unc', key[2]))
+            V('transfer_not_consumed', 'send_full', f'block {key[0]}: the forward transfer of slot {key[1]} on level {key[2]} in iteration {ent[0]} was never consumed', level_kind='fine' if key[2] == 0 else 'coarser')
+
     for rec in ctx.comm:
         if rec[0] == 'send':
             _, b, s, lvl, it, acted, dig, seq = rec
             if acted:
-                mailbox[(b, s, lvl)] = (it, dig)
+                old_ent = mailbox.get((b, s, lvl))
+                if old_ent is not None and not old_ent[2]:
+                    unconsumed((b, s, lvl), old_ent)
+                mailbox[(b, s, lvl)] = [it, dig, False]
         else:
             _, b, s, lvl, it, acted, dig, seq, src_slot, src_dig, src_tag, fresh = rec
             if not acted:
@@ -145,6 +156,15 @@ def oracle_c07(tr, sc):
                 V('transfer_matching', 'recv_full', f'block {b}: slot {s} level {lvl} iter {it} received a stale end value (sender swept after its last send)')
             elif dig != src_dig:
                 V('transfer_matching', 'recv_full', f'block {b}: slot {s} level {lvl} iter {it}: u[0] after the receive is not the sender\'s end value')
+            elif got[2] and ('twice', lvl) not in flagged:
+                flagged.add(('twice', lvl))
+                V('transfer_consumed_twice', 'recv_full', f'block {b}: slot {s} level {lvl} iter {it} consumed the transfer of slot {src_slot} a second time')
+            if got is not None:
+                got[2] = True
+    if tr.exc is None:
+        for key, ent in sorted(mailbox.items()):
+            if not ent[2]:
+                unconsumed(key, ent)
     return
 
 
@@ -490,6 +510,29 @@ def oracle_c14(tr, sc, rng):
                 mine = a['work_post'][0].get('eval_f', 0) - a['work_pre'][0].get('eval_f', 0)
                 if v != mine:
                     VF(t, 'work_mismatch', 'LogWork', f"work_rhs record {v} != {mine} right-hand-side evaluations counted independently (t={a['t']!r})")
+    # -- 1b. per-iteration quantity of the default hooks: one record per performed iteration of every accepted step, keyed with
+    #        that step's slot and restart count
+    q = 'residual_post_iteration'
+    if q in types:
+        got = filter_stats(stats, type=q, recomputed=False)
+        by_t = {}
+        for k, v in got.items():
+            by_t.setdefault(fbits(k.time), []).append(k)
+        want = {fbits(a['t']): a for a in acc}
+        extra = [t for t in by_t if t not in want]
+        if extra:
+            VF(extra[0], 'recomputed_filter_keeps_superseded', 'filter_stats', f"type {q!r}: records at time {struct.unpack('<d', extra[0])[0]!r} survive recomputed=False but belong to no accepted step", type=q, hook='DefaultHooks')
+        for t, a in want.items():
+            ks = by_t.get(t, [])
+            iters = sorted(k.iter for k in ks)
+            if iters and a['iter'] == 0 and (a['restarts_in_a_row'] or 0) > 0 and all(k.num_restarts < (a['restarts_in_a_row'] or 0) for k in ks):
+                # the accepted attempt performed no iteration, so no record of this type carries its restart count: the filter, which
+                # infers supersession from the counts present at a time key, keeps the records of the superseded attempt (root of F03)
+                V('recomputed_filter_nonmonotone_restart_count', 'filter_stats', f"type {q!r}: the accepted step at t={a['t']!r} performed no iteration; the records of its superseded attempt survive recomputed=False", root='restart_count_not_monotone_per_time')
+            elif iters != list(range(1, a['iter'] + 1)):
+                VF(t, 'per_iteration_records', 'DefaultHooks.post_iteration', f"type {q!r}: accepted step at t={a['t']!r} (slot {a['slot']}, {a['iter']} iterations, {a['restarts_in_a_row']} restarts in a row) has records for iterations {iters} after recomputed=False", type=q)
+            elif any(k.num_restarts != (a['restarts_in_a_row'] or 0) or k.process != a['slot'] for k in ks):
+                VF(t, 'wrong_key_field', 'DefaultHooks.post_iteration', f"type {q!r}: records of the accepted step at t={a['t']!r} carry num_restarts {sorted({k.num_restarts for k in ks})} / process {sorted({k.process for k in ks})}, the step has {a['restarts_in_a_row']} restarts in a row on slot {a['slot']}", type=q, field='num_restarts')
     # -- 4. filter / sort helpers on the recorded dictionary
     keys = list(stats)
     if keys:
@@ -791,6 +834,7 @@ def oracle_c03(tr, sc):
                 )
             res.probe('residual_checked')
     # stopping soundness at post_step
+    own_inc = {(rec['block'], rec['slot'], rec['iter']): rec.get('own_inc') for rec in ctx.shadow_recs if rec['at'] == 'post_iteration' and rec.get('level', 0) == 0}
     for rec in ctx.shadow_recs:
         if rec['at'] != 'post_step':
             continue
@@ -811,8 +855,13 @@ def oracle_c03(tr, sc):
             # finished at iteration 0 on the strength of the residual of the unswept initial guess (for 'copy'/'zero' guesses not
             # even the defect of the node values): the zero-sweep root cause, whatever the true defect is
             V('stopped_without_sweep', 'CheckConvergence.check_convergence', f"block {rec['block']} slot {rec['slot']} declared finished at iteration 0 without any sweep (reported residual {rec['reported']!r} <= restol {restol!r}, true defect {r!r})", kind='zero_sweeps_iter0')
-        elif r > restol + margin:
-            V('stopped_above_tolerance', 'it_check', f"block {rec['block']} slot {rec['slot']} finished at iter {rec['iter']} < maxiter {K} with defect {r!r} > restol {restol!r} and no force flag")
+        elif not (r <= restol + margin):  # above the tolerance, or not a number
+            e_tol = cfg['level'].get('e_tol')
+            inc = own_inc.get((rec['block'], rec['slot'], rec['iter']))
+            if e_tol and rec['iter'] >= 1 and inc is not None and inc < e_tol * (1 + 1e-12):
+                res.probe('stopped_by_increment')  # the configured increment tolerance was met in the step's own last iteration
+            else:
+                V('stopped_above_tolerance', 'it_check', f"block {rec['block']} slot {rec['slot']} finished at iter {rec['iter']} < maxiter {K} with defect {r!r} > restol {restol!r} and no force flag" + (f" (e_tol {e_tol!r}, increment of the last iteration {inc!r})" if e_tol else ''), nan=bool(r != r))
         elif r <= restol - margin:
             res.probe('stopped_by_residual')
             if rec['iter'] == 0 and cfg['controller'].get('predict_type') is None:
@@ -868,7 +917,7 @@ def oracle_c01(tr, sc):
         # C06's clause; here, for two consecutive steps that both report convergence, up to a small multiple of the tolerance
         # (not judged: collocation-update multi-step configurations = finding F09, histories in which a soft fault hit an initial value)
         rtype0 = cfg['level'].get('residual_type', 'full_abs')
-        if prev is not None and not lag_cfg and not fault_on_u0 and restol > 0 and rec['reported'] <= restol and prev_conv:
+        if prev is not None and not fault_on_u0 and restol > 0 and rec['reported'] <= restol and prev_conv:
             x0, xe = np.asarray(a['u0_post']).reshape(-1), np.asarray(prev['uend']).reshape(-1)
             if x0.shape == xe.shape:
                 dd = float(np.max(np.abs(x0 - xe))) if x0.size else 0.0
